@@ -12,6 +12,44 @@ from ..common import Inconclusive
 CVC5 = "cvc5"
 
 
+def portable(e):
+    """rewrite z3-only operators (bvsmul_noovfl / bvsmul_noudfl) into SMT-LIB 2.6 terms"""
+    cache = {}
+    stack = [e]
+    while stack:
+        x = stack[-1]
+        i = x.get_id()
+        if i in cache:
+            stack.pop()
+            continue
+        if not z3.is_app(x) or x.num_args() == 0:
+            cache[i] = x
+            stack.pop()
+            continue
+        kids = x.children()
+        todo = [k for k in kids if k.get_id() not in cache]
+        if todo:
+            stack.extend(todo)
+            continue
+        nk = [cache[k.get_id()] for k in kids]
+        kind = x.decl().kind()
+        if kind in (z3.Z3_OP_BSMUL_NO_OVFL, z3.Z3_OP_BSMUL_NO_UDFL):
+            a, b = nk
+            w = a.size()
+            full = z3.SignExt(w, a) * z3.SignExt(w, b)
+            if kind == z3.Z3_OP_BSMUL_NO_OVFL:
+                r = full <= z3.BitVecVal((1 << (w - 1)) - 1, 2 * w)
+            else:
+                r = full >= z3.BitVecVal(-(1 << (w - 1)), 2 * w)
+        elif all(n.get_id() == k.get_id() for n, k in zip(nk, kids)):
+            r = x
+        else:
+            r = x.decl()(*nk)
+        cache[i] = r
+        stack.pop()
+    return cache[e.get_id()]
+
+
 class Verdicts:
     def __init__(self, tag, tier, cross=True, dump_dir=None):
         self.tag = tag
@@ -27,7 +65,7 @@ class Verdicts:
         self.cross_undecided = 0
         self.log = []
 
-    def check(self, name, assertions, want_model=True):
+    def check(self, name, assertions, want_model=True, cross=None):
         """-> ('sat', model) | ('unsat', None) | ('unknown', None)"""
         s = z3.Solver()
         s.set("timeout", int(self.cap_s * 1000))
@@ -42,14 +80,17 @@ class Verdicts:
         if res == "unknown":
             self.undecided += 1
         self.log.append({"query": name, "z3": res, "z3_s": round(dt, 3)})
-        if self.cross:
+        if self.cross if cross is None else cross:
             other = self._cvc5(name, s, res)
             self.log[-1]["cvc5"] = other
         return res, (s.model() if res == "sat" and want_model else None)
 
     def _cvc5(self, name, solver, z3res):
         path = os.path.join(self.dir, "%04d-%s.smt2" % (self.n, "".join(c if c.isalnum() or c in "-_." else "_" for c in name)[:80]))
-        body = solver.to_smt2()
+        ps = z3.Solver()
+        for a in solver.assertions():
+            ps.add(portable(a))
+        body = ps.to_smt2()
         # z3 prints its internal division operators (identical to the SMT-LIB ones under its
         # default hardware interpretation of division by zero)
         for a, b in (("bvsdiv_i", "bvsdiv"), ("bvsrem_i", "bvsrem"), ("bvudiv_i", "bvudiv"), ("bvurem_i", "bvurem"),
@@ -59,8 +100,9 @@ class Verdicts:
             f.write("(set-logic ALL)\n" + body.replace("(set-logic ALL)\n", ""))
         t = time.time()
         try:
-            p = subprocess.run([CVC5, "--lang", "smt2", "--tlimit=%d" % int(self.cap_s * 1000), path],
-                               stdout=subprocess.PIPE, stderr=subprocess.PIPE, text=True, timeout=self.cap_s + 30)
+            cap = getattr(self, "cvc5_cap_s", self.cap_s)
+            p = subprocess.run([CVC5, "--lang", "smt2", "--tlimit=%d" % int(cap * 1000), path],
+                               stdout=subprocess.PIPE, stderr=subprocess.PIPE, text=True, timeout=cap + 30)
             out = (p.stdout + p.stderr).strip()
         except subprocess.TimeoutExpired:
             out = "timeout"
